@@ -112,6 +112,13 @@ def decode_value(v: Any, objs: dict) -> Any:
         return bytes.fromhex(v['$bytes'])
     if '$bytearray' in v:
         return bytearray.fromhex(v['$bytearray'])
+    if '$shared_list' in v:
+        # ONE list object per key for the whole build: the caller keeps his list, passes it to several calls and changes it
+        # in between (op 'list_append'); what a call got is the list's content at the time of the call
+        pool = objs.setdefault('__shared_lists__', {})
+        if v['$shared_list'] not in pool:
+            pool[v['$shared_list']] = [decode_value(x, objs) for x in v.get('init', [])]
+        return pool[v['$shared_list']]
     if '$frac' in v:
         from fractions import Fraction
         return Fraction(*v['$frac'])
@@ -204,6 +211,12 @@ def apply_op(b: Built, op: dict) -> str:
             b.objs[op['h']].set_attributes(**{key: decode_value(val, b.objs) for key, val in op['kw'].items()})
         elif k == 'origin_ref':
             b.objs[op['h']].origin_reference = op['value']
+        elif k == 'list_append':
+            b.objs.setdefault('__shared_lists__', {}).setdefault(op['key'], []).append(decode_value(op['value'], b.objs))
+        elif k == 'foreign_channel':
+            # a ChannelItem made outside the file object (its own, unregistered CHANNEL set)
+            from dliswriter.logical_record.eflr_types.channel import ChannelItem, ChannelSet
+            b.objs[op['h']] = ChannelItem(op['name'], parent=ChannelSet(), origin_reference=op.get('origin_reference', 0))
         elif k == 'fhid':
             # the header's public attributes, edited afterwards
             setattr(b.lfs[op['lf']].file_header, op.get('attr', 'header_id'), op['value'])
@@ -328,6 +341,31 @@ def _unwind(b: Built) -> None:
 # small builders used by the harnesses
 # ---------------------------------------------------------------------------------------------------------------------
 FIXED_ORIGIN_KW = {'file_set_number': 7, 'creation_time': {'$dt': [2020, 1, 2, 3, 4, 5, 0], 'tz': 0}}
+
+
+def flatten_shared_lists(spec: dict) -> dict:
+    """The specification as the reference model sees it: every '$shared_list' value replaced by a plain copy of the list's
+    content at that point, 'list_append' ops dropped."""
+    import copy
+    pool: dict = {}
+
+    def walk(v):
+        if isinstance(v, dict):
+            if '$shared_list' in v:
+                if v['$shared_list'] not in pool:
+                    pool[v['$shared_list']] = list(v.get('init', []))
+                return copy.deepcopy(pool[v['$shared_list']])
+            return {k: walk(x) for k, x in v.items()}
+        if isinstance(v, list):
+            return [walk(x) for x in v]
+        return v
+    ops = []
+    for op in spec['ops']:
+        if op.get('op') == 'list_append':
+            pool.setdefault(op['key'], []).append(op['value'])
+            continue
+        ops.append(walk(op))
+    return dict(spec, ops=ops)
 
 
 def op_lf(h: str = 'L0', **kw: Any) -> dict:
